@@ -735,12 +735,12 @@ impl WriterProp {
                 }
                 WOp::Flush => {
                     let r = w.as_mut().unwrap().flush();
-                    reported = Some(r.map_err(|e| (e.kind(), e.to_string())));
+                    reported = Some(r.map_err(|e| (e.kind(), crate::sink::describe_error(&e))));
                 }
                 WOp::FlushDefer => w.as_mut().unwrap().flush_defer_err(),
                 WOp::Check => {
                     let r = w.as_mut().unwrap().check_io_error();
-                    reported = Some(r.map_err(|e| (e.kind(), e.to_string())));
+                    reported = Some(r.map_err(|e| (e.kind(), crate::sink::describe_error(&e))));
                 }
                 WOp::Drop => {
                     drop(w.take());
